@@ -154,6 +154,14 @@ def prog(shape: int, tc: int, route: int, nattr: int, s2inc: bool, inc_lo2: bool
         okB = True
     except Exception:
         okB = False
+    if route == 1 and not okB:
+        # a rejected add_parameter must not leave the class with the rejected Parameter: whatever B.x is now, its non-None
+        # default satisfies its own bounds and type
+        px = B.param.x
+        dd = px.default
+        okd = dd is None or (isinstance(dd, (int, float)) and _valid(dd, px.bounds, getattr(px, 'inclusive_bounds', (True, True)))
+                             and (not isinstance(px, param.Integer) or (isinstance(dd, int))))
+        check('C11.no_class_with_invalid_default', okd, dict(info, after_rejected_add_parameter=True, default=repr(dd), bounds=repr(px.bounds)))
     d = merged['default']
     own_allow_none = k2.get('allow_None', False) or ('default' in k2 and k2['default'] is None)
     if d is None:
